@@ -1214,6 +1214,18 @@ func (r *vfRun) reservePre() vfMeta {
 	return m
 }
 
+func (r *vfRun) metaSame(before vfMeta) bool {
+	c := r.cache
+	same := len(before.cells) == len(c.cells) && len(before.ranges) == len(c.cellRanges)
+	for i := 0; same && i < len(c.cells); i++ {
+		same = before.cells[i].pos == c.cells[i].pos && slices.Equal(before.cells[i].sequences, c.cells[i].sequences)
+	}
+	for k, v := range before.ranges {
+		same = same && c.cellRanges[k] == v
+	}
+	return same
+}
+
 func (r *vfRun) reservePost(opi int, op vfOp, ctx ml.Context, err error, before vfMeta) string {
 	c := r.cache
 	if r.out != nil {
@@ -1223,14 +1235,7 @@ func (r *vfRun) reservePost(opi int, op vfOp, ctx ml.Context, err error, before 
 		r.l2("reserve-pass-error", fmt.Sprintf("op %d: %v", opi, err))
 		return ":" + vfErrClass(err)
 	}
-	same := len(before.cells) == len(c.cells) && len(before.ranges) == len(c.cellRanges)
-	for i := 0; same && i < len(c.cells); i++ {
-		same = before.cells[i].pos == c.cells[i].pos && slices.Equal(before.cells[i].sequences, c.cells[i].sequences)
-	}
-	for k, v := range before.ranges {
-		same = same && c.cellRanges[k] == v
-	}
-	if !same {
+	if !r.metaSame(before) {
 		r.l2("reserve-pass-changed-metadata", fmt.Sprintf("op %d (%s)", opi, op.String()))
 	}
 	if c.keys[r.layers[0]] == nil {
@@ -1267,8 +1272,13 @@ func (r *vfRun) step(opi int, op vfOp) {
 		r.acctCopy(op)
 		x = "C"
 	case 'R':
+		before := r.reservePre()
 		err := c.Remove(op.a, int32(op.b), int32(op.c))
 		x = "R:" + vfErrClass(err)
+		if err != nil && !r.shadow.unsound && !r.metaSame(before) {
+			// a removal that reports failure must not have removed or moved anything (F28)
+			r.l2("remove-error-mutated-state", fmt.Sprintf("op %d (%s): Remove returned %s after changing the cells of sequence %d", opi, op.String(), vfErrClass(err), op.a))
+		}
 		r.acctRemove(opi, op, err)
 	case 'Q':
 		res := c.CanResume(op.a, int32(op.b))
@@ -2220,7 +2230,8 @@ func vfEmit(out *zzverif.Out, cf vfConfig, ops []vfOp) {
 // TestVerifC06Probe determines which of the three repairs the tree under test carries, by running the
 // real code on the three witness histories (Tie 1: the model variant is a fact regenerated from the
 // tree on every run).  Writes variant.txt: bit 1 = F14 repaired, 2 = F15b repaired, 4 = F23 repaired,
-// 8 = sliding-window capacity counts the batch per sequence (C07 F-SWA-capacity repaired).
+// 8 = sliding-window capacity counts the batch per sequence (C07 F-SWA-capacity repaired), 16 = Remove is
+// atomic on error (F28 repaired).
 func TestVerifC06Probe(t *testing.T) {
 	run := func(line string) (r *vfRun, panicked bool) {
 		cf, ops, err := vfParseHistory(line)
@@ -2267,6 +2278,13 @@ func TestVerifC06Probe(t *testing.T) {
 			bits |= 8
 		default:
 			t.Fatalf("unexpected sliding-window cache size %d", len(c.cells))
+		}
+	}
+	// F28: a refused Remove (shared cells would have to shift) must leave the cells as they were
+	r, _ = run("kv-x 0 inf 2 8 8 1 1 1 0 0 8192 3 F 4 0 0 1 0 1 2 0 2 3 0 3 4 C 0 1 4 R 0 1 2")
+	for _, c := range r.cache.cells {
+		if c.pos == 1 && slices.Contains(c.sequences, 0) {
+			bits |= 16
 		}
 	}
 	if err := os.WriteFile(zzverif.OutDir()+"/variant.txt", []byte(strconv.Itoa(bits)+"\n"), 0o644); err != nil {
